@@ -18,17 +18,43 @@ theorem ObjAt_append (out w : Bytes) (off n g : Nat) (o : Obj) (h : ObjAt out of
   rw [List.drop_append]
   exact List.IsPrefix.trans h (List.prefix_append _ _)
 
+/-- not an object-stream container (those make the reader unpack members) -/
+def NotObjStm : Obj → Prop
+  | .stream d _ => Dict.getTypeIs d OBJSTM = false
+  | _ => True
+
 /-- every recorded entry lies inside the output and names a kept object of `all` whose complete
 text `n g obj … endobj` stands at the recorded offset -/
 def Recorded (out : Bytes) (x : XrefMap) (all : Objects) : Prop :=
   ∀ n off g, x.get n = some (off, g) →
-    off ≤ out.length ∧ ∃ o, all.get (n, g) = some o ∧ skippedOnSave o = false ∧ ObjAt out off n g o
+    off ≤ out.length ∧ ∃ o, all.get (n, g) = some o ∧ NotObjStm o ∧ ObjAt out off n g o
 
 theorem Recorded_append (out w : Bytes) (x : XrefMap) (all : Objects) (h : Recorded out x all) :
     Recorded (out ++ w) x all := by
   intro n off g hg
   obtain ⟨h1, o, h2, h3, h4⟩ := h n off g hg
   exact ⟨by simp only [List.length_append]; omega, o, h2, h3, ObjAt_append _ _ _ _ _ _ h4⟩
+
+theorem not_objstm_of_kept (d : Dict) (c : Bytes) (h : skippedOnSave (.stream d c) = false) :
+    Dict.getTypeIs d OBJSTM = false := by
+  unfold Dict.getTypeIs
+  unfold skippedOnSave Dict.getType at h
+  cases hn : (d.get TYPE).bind Obj.asName with
+  | none => rfl
+  | some n =>
+    simp only [hn] at h
+    simp only
+    cases hb : (n == OBJSTM) with
+    | false => rfl
+    | true =>
+      have : n = OBJSTM := by simpa using hb
+      subst this
+      simp at h
+
+theorem notObjStm_of_kept (o : Obj) (h : skippedOnSave o = false) : NotObjStm o := by
+  cases o with
+  | stream d c => exact not_objstm_of_kept d c h
+  | _ => trivial
 
 theorem writeObjects_recorded (all : Objects) : ∀ (os : Objects) (out : Bytes) (x : XrefMap),
     Recorded out x all → (∀ p ∈ os, all.get p.1 = some p.2) →
@@ -64,7 +90,7 @@ theorem writeObjects_recorded (all : Objects) : ∀ (os : Objects) (out : Bytes)
         injection hget with h1 h2
         subst h1; subst h2
         rw [Nat.mod_eq_of_lt hl]
-        refine ⟨by simp only [List.length_append]; omega, o, hp, hs', ?_⟩
+        refine ⟨by simp only [List.length_append]; omega, o, hp, notObjStm_of_kept o hs', ?_⟩
         unfold ObjAt
         rw [List.drop_left]
         exact List.prefix_refl _
@@ -117,24 +143,8 @@ def stepOs (objs : Objects) (os : LObjects) (e : Nat × XEntry) : LObjects :=
   | .compressed _ _ => os
 
 def EntryGood (buf : Bytes) (x : XTable) (N : Nat) (objs : Objects) (e : Nat × XEntry) : Prop :=
-  ∃ off g o, e.2 = .normal off g ∧ off ≤ buf.length ∧ objs.get (e.1, g) = some o ∧ skippedOnSave o = false ∧
+  ∃ off g o, e.2 = .normal off g ∧ off ≤ buf.length ∧ objs.get (e.1, g) = some o ∧ NotObjStm o ∧
     pIndirect (lengthOf buf x (N + 1) []) none off (buf.drop off) = some ((e.1, g), .plain o)
-
-theorem not_objstm_of_kept (d : Dict) (c : Bytes) (h : skippedOnSave (.stream d c) = false) :
-    Dict.getTypeIs d OBJSTM = false := by
-  unfold Dict.getTypeIs
-  unfold skippedOnSave Dict.getType at h
-  cases hn : (d.get TYPE).bind Obj.asName with
-  | none => rfl
-  | some n =>
-    simp only [hn] at h
-    simp only
-    cases hb : (n == OBJSTM) with
-    | false => rfl
-    | true =>
-      have : n = OBJSTM := by simpa using hb
-      subst this
-      simp at h
 
 theorem loadStep_good (buf : Bytes) (x : XTable) (N : Nat) (objs : Objects) (e : Nat × XEntry)
     (os : LObjects) (fs : List Block) (h : EntryGood buf x N objs e) :
@@ -144,7 +154,9 @@ theorem loadStep_good (buf : Bytes) (x : XTable) (N : Nat) (objs : Objects) (e :
   unfold loadStep stepOs
   simp only [he, hnot, if_false, hp, hget, Option.getD_some]
   cases o with
-  | stream d c => simp [not_objstm_of_kept d c hkept]
+  | stream d c =>
+    have hk' : Dict.getTypeIs d OBJSTM = false := hkept
+    simp [hk']
   | _ => rfl
 
 theorem loadStep_fold (buf : Bytes) (x : XTable) (N : Nat) (objs : Objects) :
@@ -188,6 +200,34 @@ theorem stepOs_fold_get (objs : Objects) (id : ObjId) : ∀ (L : List (Nat × XE
             simp at hb
             exact absurd (Prod.ext hb.1 hb.2) hid
         simp only [this, Bool.false_or, hid, if_false]
+
+/-- **the object pass on a table all of whose entries read back**: it succeeds, keeps the
+cross-reference data, and holds under each id named by an in-use entry the object read there -/
+theorem objectPass_good (arr : List Block → List Block) (harr : arr [] = []) (buf version mark : Bytes)
+    (x : XTable) (tr : Dict) (xs : Nat) (objs : Objects)
+    (hgood : ∀ e ∈ x.sorted, EntryGood buf x x.sorted.length objs e) :
+    ∃ L : Loaded, objectPass arr buf version mark x tr xs = .ok L ∧ L.version = version ∧ L.binaryMark = mark ∧
+      L.trailer = tr ∧ L.xrefStart = xs ∧ L.maxId = x.maxId ∧
+      ∀ id, L.objects.get id = if x.sorted.any (entryIs id) then some ((objs.get id).getD .null) else none := by
+  have hfold := loadStep_fold buf x x.sorted.length objs x.sorted [] hgood
+  unfold objectPass
+  simp only [hfold, harr, mergeBlocksX_nil]
+  refine ⟨_, rfl, rfl, rfl, rfl, rfl, by simp, ?_⟩
+  intro id
+  simp only
+  rw [Objects_get_foldr_sorted]
+  refine Eq.trans (Objects_get_map _ _ ?_ id) ?_
+  · intro p
+    obtain ⟨i, lo⟩ := p
+    simp only
+    repeat' split
+    all_goals rfl
+  rw [stepOs_fold_get]
+  by_cases hany : x.sorted.any (entryIs id) = true
+  · simp only [hany, if_true, Option.map_some]
+    generalize (objs.get id).getD .null = X
+    cases X <;> simp
+  · simp only [hany, Bool.false_eq_true, if_false, LObjects.get, Option.map_none]
 
 /-! ### `load ∘ save` -/
 
